@@ -210,6 +210,22 @@ func scriptCmd(args []string) error {
 			tr.emit(scriptEvent("gen-pd4", append([]byte{0x4e, byte(l), byte(l >> 8), 0, 0}, d...)))
 			tr.emit(scriptEvent("gen-pd2", append([]byte{0x4d, byte(l), byte(l >> 8)}, d...)))
 		}
+		// a standard template followed by an OP_RETURN payload (not a data script: it does not *start* with OP_RETURN),
+		// and pushes of exactly 254 / 255 / 256 bytes in their PUSHDATA1 / PUSHDATA2 forms
+		p2pkh := *p2pkhScript(0x42)
+		for _, tail := range [][]byte{{0x6a}, {0x6a, 0x02, 0x61, 0x70}, {0x6a, 0x03, 0x61, 0x70, 0x70, 0x04, 0x74, 0x65, 0x78, 0x74}, {0x6a, 0x75, 0x51},
+			{0x6a, 0x05, 1, 2, 3, 4, 5, 0x06, 1, 2, 3, 4, 5, 6}, {0x6a, 0x01, 0x07}} {
+			tr.emit(scriptEvent("gen-tmpl-return", append(append([]byte{}, p2pkh...), tail...)))
+			tr.emit(scriptEvent("gen-tmpl-return", append([]byte{0x21, 2, 1, 2, 3, 4, 5, 6, 7, 8, 9, 10, 11, 12, 13, 14, 15, 16, 17, 18, 19, 20, 21, 22, 23, 24, 25, 26, 27, 28, 29, 30, 31, 32, 0xac}, tail...)))
+		}
+		for _, l := range []int{254, 255, 256} {
+			d := randBytes(rng, l)
+			if l <= 255 {
+				tr.emit(scriptEvent("gen-pd1max", append([]byte{0x4c, byte(l)}, d...)))
+				tr.emit(scriptEvent("gen-pd1max", append(append([]byte{0x00, 0x6a, 0x4c, byte(l)}, d...), 0x51)))
+			}
+			tr.emit(scriptEvent("gen-pd1max", append([]byte{0x4d, byte(l), byte(l >> 8)}, d...)))
+		}
 		// every single opcode, alone and next to a multi-byte push (ASM names of all 256 byte values)
 		for op := 0; op < 256; op++ {
 			tr.emit(scriptEvent("allops", []byte{byte(op)}))
